@@ -16,7 +16,7 @@ ASSUMPTIONS = [
 ]
 CASES = {"quick": 480, "thorough": 20000}
 MIN_CASES = {"quick": 60, "thorough": 1500}
-REQUIRED_COUNTERS = ["trials_judged_by_contract", "layouts_judged", "movable_discs_checked", "fixed_modules_checked", "fixed_terminals_checked", "hard_modules_checked", "layouts_after_earlier_queries", "nets_compared_with_document"]
+REQUIRED_COUNTERS = ["laid_out_again_in_a_smaller_die", "trials_judged_by_contract", "layouts_judged", "movable_discs_checked", "fixed_modules_checked", "fixed_terminals_checked", "hard_modules_checked", "layouts_after_earlier_queries", "nets_compared_with_document"]
 REQUIRED_CLASSES = ["fixed0", "fixed1"]
 SOFT_DEADLINE = {"quick": 200, "thorough": 3300}
 
@@ -117,7 +117,13 @@ def generate(rng, tier, i):
         for name, m in mods.items():
             if "area" in m and "center" not in m:
                 m["center"] = [round(rng.uniform(0, W), 3), round(rng.uniform(0, H), 3)]
-    return {"cls": f"fixed{min(nfix, 1)}" + ("_init" if n == 0 else ""), "W": W, "H": H, "netlist": {"Modules": {k: mods[k] for k in order}, "Nets": nets},
+    again = None
+    if n > 0 and not any(m.get("fixed") for m in mods.values()) and rng.random() < 0.85:
+        rmax = max(math.sqrt((m["area"] if "area" in m else sum(r[2] * r[3] for r in m["rectangles"])) / math.pi) for m in mods.values())
+        f, g = rng.choice([[0.5, 1.0], [1.0, 0.5], [0.7, 0.8], [0.6, 0.6], [1.0, 1.0]])
+        if min(W * f, H * g) >= 2.3 * rmax:
+            again = [f, g]
+    return {"again": again, "cls": f"fixed{min(nfix, 1)}" + ("_init" if n == 0 else ""), "W": W, "H": H, "netlist": {"Modules": {k: mods[k] for k in order}, "Nets": nets},
             "n": n, "pyseed": rng.randrange(1 << 30), "query_first": rng.random() < 0.3}
 
 
@@ -158,64 +164,70 @@ def check(case, ctx):
         # a legitimate earlier use of the netlist (must not influence the placement)
         ctx.call(lambda: (sp.num_rectangles, [m.area() for m in sp.modules], sp.num_edges))
         ctx.count("layouts_after_earlier_queries")
-    _state["trials"] = []
-    random.seed(case["pyseed"])
-    ok, res = ctx.call(sp.spectral_layout, _Shape(W, H), case["n"], False)
-    what = f"W={W} H={H} n={case['n']} seed={case['pyseed']} netlist={case['netlist']}"
-    if not ok:
-        ctx.violation("layout_raised", f"spectral_layout raised {type(res).__name__}: {str(res)[:200]} on an admissible input :: {what}")
-        return
-    ctx.nontrivial(True)
-    # ---- every trial, as seen by the contract on spectral_layout_die ---------------------------
-    if len(_state["trials"]) != max(case["n"], 1):
-        ctx.violation("trial_count", f"{len(_state['trials'])} trials observed, {case['n']} requested")
-    for t in _state["trials"]:
-        ctx.count("trials_judged_by_contract")
-        size = t["size"]
-        for d in range(2):
-            for i, x in enumerate(t["coord"][d]):
-                rad = math.sqrt(t["mass"][i] / math.pi)
-                if t["fixed"][i]:
-                    if abs(x - (t["initial"][d][i] - size[d] / 2)) > 1e-9 * size[d]:
-                        ctx.violation("trial_fixed_moved", f"trial: fixed node {i} moved from {t['initial'][d][i] - size[d] / 2} to {x} (dim {d}) :: {what}")
-                elif not math.isfinite(x) or abs(x) > size[d] / 2 - rad + 1e-9 * size[d]:
-                    ctx.violation("trial_disc_outside", f"trial: node {i} at {x} (dim {d}) with radius {rad} leaves the die of size {size[d]} :: {what}")
-    # ---- end to end on the module objects ---------------------------------------------------------
-    ctx.count("layouts_judged")
-    after = nu.summary(sp)
-    for b, a in zip(before["modules"], after["modules"]):
-        if b["name"] != a["name"] or b["kind"] != a["kind"] or b["area_regions"] != a["area_regions"] or b["area"] != a["area"] or b["aspect_ratio"] != a["aspect_ratio"]:
-            ctx.violation("module_changed", f"module {b['name']}: kind/area changed: {b} -> {a}")
-    if want_nets != after["nets"] or len(before["modules"]) != len(after["modules"]):
-        ctx.violation("nets_changed", f"nets or module list changed: document {want_nets}, after placement {after['nets']}")
-    sx, sy = 1e-9 * W, 1e-9 * H
-    for m, b in zip(sp.modules, before["modules"]):
-        rad = math.sqrt(m.area() / math.pi)
-        if m.is_fixed:
-            ctx.count("fixed_modules_checked")
-            if m.is_terminal:
-                ctx.count("fixed_terminals_checked")
-                c0 = b["center"]
-                if m.center is None or abs(m.center.x - c0[0]) > 1e-9 * W or abs(m.center.y - c0[1]) > 1e-9 * H:
-                    ctx.violation("fixed_moved", f"fixed terminal {m.name} moved from {c0} to {m.center} :: {what}")
+    dies = [(W, H, "")]
+    if case.get("again"):
+        dies.append((W * case["again"][0], H * case["again"][1], "second layout of the same object, now in a smaller die: "))
+    for (W, H, tag) in dies:
+        if tag:
+            ctx.count("laid_out_again_in_a_smaller_die")
+        _state["trials"] = []
+        random.seed(case["pyseed"])
+        ok, res = ctx.call(sp.spectral_layout, _Shape(W, H), case["n"], False)
+        what = f"{tag}W={W} H={H} n={case['n']} seed={case['pyseed']} netlist={case['netlist']}"
+        if not ok:
+            ctx.violation("layout_raised", f"spectral_layout raised {type(res).__name__}: {str(res)[:200]} on an admissible input :: {what}")
+            return
+        ctx.nontrivial(True)
+        # ---- every trial, as seen by the contract on spectral_layout_die ---------------------------
+        if len(_state["trials"]) != max(case["n"], 1):
+            ctx.violation("trial_count", f"{len(_state['trials'])} trials observed, {case['n']} requested")
+        for t in _state["trials"]:
+            ctx.count("trials_judged_by_contract")
+            size = t["size"]
+            for d in range(2):
+                for i, x in enumerate(t["coord"][d]):
+                    rad = math.sqrt(t["mass"][i] / math.pi)
+                    if t["fixed"][i]:
+                        if abs(x - (t["initial"][d][i] - size[d] / 2)) > 1e-9 * size[d]:
+                            ctx.violation("trial_fixed_moved", f"trial: fixed node {i} moved from {t['initial'][d][i] - size[d] / 2} to {x} (dim {d}) :: {what}")
+                    elif not math.isfinite(x) or abs(x) > size[d] / 2 - rad + 1e-9 * size[d]:
+                        ctx.violation("trial_disc_outside", f"trial: node {i} at {x} (dim {d}) with radius {rad} leaves the die of size {size[d]} :: {what}")
+        # ---- end to end on the module objects ---------------------------------------------------------
+        ctx.count("layouts_judged")
+        after = nu.summary(sp)
+        for b, a in zip(before["modules"], after["modules"]):
+            if b["name"] != a["name"] or b["kind"] != a["kind"] or b["area_regions"] != a["area_regions"] or b["area"] != a["area"] or b["aspect_ratio"] != a["aspect_ratio"]:
+                ctx.violation("module_changed", f"module {b['name']}: kind/area changed: {b} -> {a}")
+        if want_nets != after["nets"] or len(before["modules"]) != len(after["modules"]):
+            ctx.violation("nets_changed", f"nets or module list changed: document {want_nets}, after placement {after['nets']}")
+        sx, sy = 1e-9 * W, 1e-9 * H
+        for m, b in zip(sp.modules, before["modules"]):
+            rad = math.sqrt(m.area() / math.pi)
+            if m.is_fixed:
+                ctx.count("fixed_modules_checked")
+                if m.is_terminal:
+                    ctx.count("fixed_terminals_checked")
+                    c0 = b["center"]
+                    if m.center is None or abs(m.center.x - c0[0]) > 1e-9 * W or abs(m.center.y - c0[1]) > 1e-9 * H:
+                        ctx.violation("fixed_moved", f"fixed terminal {m.name} moved from {c0} to {m.center} :: {what}")
+                    continue
+                if [nu.rect_tuple(r) for r in m.rectangles] != b["rectangles"]:
+                    ctx.violation("fixed_moved", f"fixed module {m.name}: rectangles {b['rectangles']} -> {[nu.rect_tuple(r) for r in m.rectangles]}")
                 continue
-            if [nu.rect_tuple(r) for r in m.rectangles] != b["rectangles"]:
-                ctx.violation("fixed_moved", f"fixed module {m.name}: rectangles {b['rectangles']} -> {[nu.rect_tuple(r) for r in m.rectangles]}")
-            continue
-        if m.is_hard:
-            ctx.count("hard_modules_checked")
-            cx, cy = centroid(m.rectangles)
-            offs = [(r.center.x - cx, r.center.y - cy, r.shape.w, r.shape.h) for r in m.rectangles]
-            for o, p in zip(offs, pre[m.name]["offs"]):
-                if abs(o[0] - p[0]) > sx or abs(o[1] - p[1]) > sy or o[2] != p[2] or o[3] != p[3]:
-                    ctx.violation("hard_not_rigid", f"hard module {m.name}: rectangle offsets {pre[m.name]['offs']} -> {offs}")
-                    break
-            px, py = cx, cy
-        else:
-            if m.center is None:
-                ctx.violation("no_centre", f"soft module {m.name} has no centre after placement")
-                continue
-            px, py = m.center.x, m.center.y
-        ctx.count("movable_discs_checked")
-        if not (math.isfinite(px) and math.isfinite(py)) or px < rad - sx or px > W - rad + sx or py < rad - sy or py > H - rad + sy:
-            ctx.violation("disc_outside", f"module {m.name} at ({px},{py}) with radius {rad} leaves the {W}x{H} die :: {what}")
+            if m.is_hard:
+                ctx.count("hard_modules_checked")
+                cx, cy = centroid(m.rectangles)
+                offs = [(r.center.x - cx, r.center.y - cy, r.shape.w, r.shape.h) for r in m.rectangles]
+                for o, p in zip(offs, pre[m.name]["offs"]):
+                    if abs(o[0] - p[0]) > sx or abs(o[1] - p[1]) > sy or o[2] != p[2] or o[3] != p[3]:
+                        ctx.violation("hard_not_rigid", f"hard module {m.name}: rectangle offsets {pre[m.name]['offs']} -> {offs}")
+                        break
+                px, py = cx, cy
+            else:
+                if m.center is None:
+                    ctx.violation("no_centre", f"soft module {m.name} has no centre after placement")
+                    continue
+                px, py = m.center.x, m.center.y
+            ctx.count("movable_discs_checked")
+            if not (math.isfinite(px) and math.isfinite(py)) or px < rad - sx or px > W - rad + sx or py < rad - sy or py > H - rad + sy:
+                ctx.violation("disc_outside", f"module {m.name} at ({px},{py}) with radius {rad} leaves the {W}x{H} die :: {what}")
